@@ -188,11 +188,18 @@ func (r *Run) open(o OpenOpts) error {
 	var l klevdb.Log
 	err := guard(func() error {
 		var e error
-		l, e = klevdb.Open(r.Dir, opts)
+		if r.P.Cfg.Typed {
+			l, e = openTyped(r.Dir, opts)
+		} else {
+			l, e = klevdb.Open(r.Dir, opts)
+		}
 		return e
 	})
 	if err != nil {
 		return err
+	}
+	if r.P.Cfg.Typed {
+		r.Probes["typed_facade"]++
 	}
 	if r.Wrap != nil {
 		l = r.Wrap(l)
@@ -397,13 +404,17 @@ func (r *Run) applyDeleted(kind string, req []int64, got []Msg, gotOffs []int64,
 	if gotOffs == nil {
 		gotOffs = msgOffs(got)
 	}
+	lastLive := int64(-1)
+	if n := len(r.M.Live); n > 0 {
+		lastLive = r.M.Live[n-1].Off
+	}
 	r.M.Remove(boolSet(gotOffs))
 	r.logf("%s req=%v -> deleted=%v size=%d err=%v", kind, req, gotOffs, size, errStr(err))
 	if len(gotOffs) > 0 {
 		r.probe("deleted_some")
 		if len(r.M.Live) == 0 {
 			r.probe("log_emptied")
-		} else if len(before.Live) > 0 && !r.M.IsLive(before.Live[len(before.Live)-1].Off) {
+		} else if lastLive >= 0 && !r.M.IsLive(lastLive) {
 			r.probe("tail_deleted")
 		}
 	}
